@@ -20,7 +20,8 @@ Inductive wf (k : kind) : ty -> Prop :=
 | wf_union : forall ts, Forall (wf k) ts -> wf k (TUnion ts)
 | wf_gen : forall c ps, Forall (wf k) ps -> wf k (TGen k c ps)
 | wf_tup : forall c ps, memn c [c_tuple; c_typing_tuple] = true -> Forall (wf k) ps -> wf k (TTup k c ps)
-| wf_call : forall ps, Forall (wf k) ps -> wf k (TCall k c_callable ps).
+| wf_call : forall ps, Forall (wf k) ps -> wf k (TCall k c_callable ps)
+| wf_var : forall n sc hb ps, Forall (wf k) ps -> wf k (TVar n sc hb ps).
 
 Definition wf_unit (k : kind) (u : unit_) : Prop := Forall (wf k) (types_of_unit u).
 
@@ -63,16 +64,21 @@ Definition unit_wider (H : hier) (u u' : unit_) : Prop :=
   Forall2 (class_wider H) (u_classes u) (u_classes u') /\
   Forall2 (func_wider H) (u_funcs u) (u_funcs u').
 
+(* --- MergeTypeParameters: a class type parameter without bound and without constraints *)
+Definition unbounded_var (t : ty) : Prop := exists n sc hb, t = TVar n sc hb [].
+Definition unb_classes (u : unit_) : Prop :=
+  Forall (fun c => Forall unbounded_var (cl_template c)) (u_classes u).
+
 (* --- which passes need / keep the well-formedness invariant; checked on the regenerated list *)
 Definition needs_wf (p : pass) : bool :=
   match p with PCombineContainers | PSimplifyUnionsWithSuperclasses => true | _ => false end.
 Definition keeps_wf (p : pass) : bool :=
-  match p with PAdjustSelf | PLookupClasses => false | _ => true end.
+  match p with PAdjustSelf | PLookupClasses | PMergeTypeParameters => false | _ => true end.
 (* AdjustSelf rewrites `self: Any` to the class (not a widening); Optimize only runs it under
    remove_mutable, and the theorem then assumes a unit without classes *)
 Definition is_remove_mutable (f : flag) : bool := match f with FRemoveMutable => true | _ => false end.
 Definition guard_ok (fl : list flag) (p : pass) : bool :=
-  match p with PAdjustSelf => existsb is_remove_mutable fl | _ => true end.
+  match p with PAdjustSelf | PMergeTypeParameters => existsb is_remove_mutable fl | _ => true end.
 Fixpoint pipeline_ok (wfok : bool) (ps : list (list flag * pass)) : bool :=
   match ps with
   | [] => true
@@ -85,7 +91,7 @@ Fixpoint no_single (t : ty) : Prop :=
   match t with
   | TUnion ts =>
       length ts <> 1 /\ (fix all l := match l with [] => True | x :: r => no_single x /\ all r end) ts
-  | TGen _ _ ps | TTup _ _ ps | TCall _ _ ps =>
+  | TGen _ _ ps | TTup _ _ ps | TCall _ _ ps | TVar _ _ _ ps =>
       (fix all l := match l with [] => True | x :: r => no_single x /\ all r end) ps
   | _ => True
   end.
@@ -95,7 +101,7 @@ Fixpoint no_single (t : ty) : Prop :=
 Fixpoint no_class_object (t : ty) : bool :=
   match t with
   | TName KClass c => negb (Nat.eqb c c_object)
-  | TUnion ts | TGen _ _ ts | TTup _ _ ts | TCall _ _ ts => forallb no_class_object ts
+  | TUnion ts | TGen _ _ ts | TTup _ _ ts | TCall _ _ ts | TVar _ _ _ ts => forallb no_class_object ts
   | _ => true
   end.
 
@@ -128,6 +134,7 @@ Fixpoint stable_ty (H : hier) (deps : bool) (maxu : nat) (kk : kind) (t : ty) : 
       && forallb (stable_ty H deps maxu kk) ts
   | TGen k _ ps => kind_eqb k kk && negb (forallb is_any ps) && forallb (stable_ty H deps maxu kk) ps
   | TTup k _ ps | TCall k _ ps => kind_eqb k kk && forallb (stable_ty H deps maxu kk) ps
+  | TVar _ _ _ ps => forallb (stable_ty H deps maxu kk) ps
   end.
 
 Definition stable_param (st : ty -> bool) (p : param) : bool :=
@@ -138,7 +145,8 @@ Definition stable_oparam (st : ty -> bool) (p : option param) : bool :=
 Definition stable_sig (st : ty -> bool) (s : sig) : bool :=
   forallb (stable_param st) (s_params s) && stable_oparam st (s_star s) && stable_oparam st (s_starstar s)
   && st (s_ret s) && no_class_object (s_ret s)
-  && forallb st (s_exc s) && distinct_by (fun a b => py_eqb b a) (s_exc s).
+  && forallb st (s_exc s) && distinct_by (fun a b => py_eqb b a) (s_exc s)
+  && forallb st (s_template s).
 (* no two signatures with the same parameters *)
 Definition stable_func (st : ty -> bool) (f : func) : bool :=
   forallb (stable_sig st) (f_sigs f) && distinct_by stripped_eqb (f_sigs f).
@@ -152,7 +160,8 @@ Definition self_plain (cls : cid) (s : sig) : bool :=
 Definition stable_class (kk : kind) (st : ty -> bool) (c : class) : bool :=
   forallb (fun f => stable_func st f && forallb (self_plain (cl_name c)) (f_sigs f)) (cl_methods c)
   && forallb (stable_const st) (cl_consts c)
-  && forallb (fun b => kind_eqb (fst b) kk) (cl_bases c).
+  && forallb (fun b => kind_eqb (fst b) kk) (cl_bases c)
+  && forallb st (cl_template c).
 (* [kk]: the spelling of class references in the stub; must be ClassType when LookupClasses runs *)
 Definition stable_unit (kk : kind) (o : opts) (Hd : hier) (u : unit_) : bool :=
   let st := stable_ty (hier_of u ++ Hd) (o_deps o) (o_max_union o) kk in
